@@ -22,6 +22,9 @@ from tola.fasta.index import index_fasta_file
 
 class C06(Check):
     pid = "C06"
+    level_text = (
+        "Independent line-level AGP validator applied to every AGP text produced while three host scopes are enumerated exhaustively (format_agp scope, remap outputs, FASTA-derived caches, FASTA+AGP pairs)."
+    )
     technique = (
         "independent AGP arithmetic validator applied to every AGP text produced while exhaustively enumerating three host scopes "
         "(C05 assemblies, C01 remap outputs, C04 FASTA-derived caches)"
